@@ -172,8 +172,8 @@ pub fn run() -> i32 {
     let mut ctx = Ctx::new("C07", "exploration");
     let seed = ctx.seed;
     let tier = ctx.tier;
-    let gh_max = tier.pick(300usize, 1100);
-    let max = tier.pick(1100usize, 2200);
+    let gh_max = tier.pick(700usize, 2100);
+    let max = tier.pick(2100usize, 4200);
     ctx.rule = format!("full products per primitive, each cell compared with libsodium: BLAKE2b every (outlen 16..=64) x (no key | every key length 16..=64) x every input length 0..={} (classic one-shot, init/update/final, GenericHash<K,O> for 24 const instantiations); SHA-512, HMAC-SHA-512-256, Poly1305, SipHash-2-4: every length 0..={} x 5 keys x 4 contents (classic and object API); Poly1305 constructed operands (r/s corner values x all 1..=4-block strings over 5 block values + partial tails; accumulators solved to hit p-2..p+6, 2^130-6..2^130+6, 2p-2..2p+2 exactly); HSalsa20/HChaCha20 key x input alphabet, all 384 single-bit inputs, with/without custom constants; little-endian increment for every 1- and 2-byte value, all-0xff lengths 0..=16 and carry boundaries; verify functions: correct tag accepted, every single-bit mutation rejected; a corpus of the cells (every 3rd length) is written for the independent Python reference; non-trivial = cell executed in dryoc and libsodium", gh_max, max);
     ctx.assume("reference 1: libsodium 1.0.18 in-process; reference 2: Python hashlib/hmac/big-integer re-computation of the dumped corpus (ref/spec_check.py), run by bin/check after this binary");
     ctx.assume("inputs of 2^64 bytes or more are excluded, as in the property");
